@@ -54,6 +54,19 @@ let handle (fs : string list) : string =
       let ms = filter_sphinx_inventories invs (ostr_of_field qi) (ostr_of_field qd)
                  (ostr_of_field qo) (ostr_of_field qt) in
       (match ms with [] -> "." | _ -> String.concat " " (List.map show_match ms))
+  | "invlink" :: explicit :: qi :: qd :: qo :: qt :: rest ->
+      (* the whole decision: filter, then render_link_inventory on the match list *)
+      let invs = parse_invs rest in
+      let ms = filter_inventories invs (ostr_of_field qi) (ostr_of_field qd)
+                 (ostr_of_field qo) (ostr_of_field qt) in
+      (match render_link_inventory (explicit = "1") ms with
+       | LR_missing -> "missing"
+       | LR_ref (amb, r) ->
+           (if amb then "ambiguous " else "one ") ^ field_of_str r.r_refuri ^ " " ^
+           (match r.r_text with
+            | RT_children -> "children"
+            | RT_text t -> "text:" ^ field_of_str t
+            | RT_literal t -> "literal:" ^ field_of_str t))
   | _ -> "!badcmd"
 
 let () = main handle
